@@ -2,10 +2,14 @@
 //! list lengths; version conversion preserves common content.  DESIGN.md §6 C15.
 //!
 //! Signature scheme: `<clause>|<item>|<trigger predicate>|<version set>`.
-//!   One case = one generated object written for all five versions Classic..MoP.  For every (clause, item,
-//!   predicate) the versions on which the comparison failed are collected; the version set is rendered as
-//!   `all` when it equals the set of versions on which that comparison was made, otherwise as `A+B`.
+//!   One case = one generated object written for all eleven versions Classic..WarWithin (MVER 17 for Classic..MoP,
+//!   the crate's own numbers 18..23 from Wod on).  For every (clause, item, predicate) the versions on which the
+//!   comparison failed are collected; the version set is rendered as `all` when it equals the set of versions on which
+//!   that comparison was made, otherwise as `A+B` (with `v18+` standing for "every checked version from Wod on").
 //!   Nothing random enters a signature.
+//!   Further clauses: `alt-reader|<entry point>|<root/group>|<item>` (parse_wmo_with_metadata, discover_wmo_chunks,
+//!   root_parser::parse_root_file against parse_wmo and the walker) and `editor-history|...` (WmoEditor sessions:
+//!   tallies, vertex lists, save -> parse of the edited root and of the loaded groups).
 //!
 //! Types without `Default`: WmoRoot and its element structs are obtained by parsing a seed file produced by
 //! the independent encoder below and edited by field assignment.  The legacy `WmoGroup` family cannot be
@@ -24,16 +28,47 @@ use wow_wmo::wmo_group_types::{
 use wow_wmo::wmo_types::{WmoFlags, WmoLightType, WmoMaterialFlags, WmoRoot};
 use wow_wmo::{WmoConverter, WmoGroupParser, WmoParser, WmoWriter};
 
-const VERS: [(WmoVersion, &str); 5] = [
+const VERS: [(WmoVersion, &str); 11] = [
     (WmoVersion::Classic, "Classic"),
     (WmoVersion::Tbc, "Tbc"),
     (WmoVersion::Wotlk, "Wotlk"),
     (WmoVersion::Cataclysm, "Cataclysm"),
     (WmoVersion::Mop, "Mop"),
+    (WmoVersion::Wod, "Wod"),
+    (WmoVersion::Legion, "Legion"),
+    (WmoVersion::Bfa, "Bfa"),
+    (WmoVersion::Shadowlands, "Shadowlands"),
+    (WmoVersion::Dragonflight, "Dragonflight"),
+    (WmoVersion::WarWithin, "WarWithin"),
 ];
 const WOTLK: usize = 2;
 const CATA: usize = 3;
 const MOP: usize = 4;
+/// first version written with an MVER above 17 (the crate's own numbering 18..23) and with the crate's 16-byte liquid vertices
+const WOD: usize = 5;
+const LEGION: usize = 6;
+
+static THOROUGH: std::sync::atomic::AtomicBool = std::sync::atomic::AtomicBool::new(false);
+
+/// Conversion pairs of one case: the 25 pairs among Classic..Mop always; of the 96 pairs that involve a version from Wod on
+/// all in thorough, in quick 12 per case (rotating with the case index, so that 8 consecutive cases cover all of them).
+fn conversion_pairs(idx: u64) -> Vec<(usize, usize)> {
+    let mut old = Vec::new();
+    let mut new = Vec::new();
+    for from in 0..VERS.len() {
+        for to in 0..VERS.len() {
+            if from < WOD && to < WOD { old.push((from, to)) } else { new.push((from, to)) }
+        }
+    }
+    if THOROUGH.load(std::sync::atomic::Ordering::Relaxed) {
+        old.extend(new);
+    } else {
+        for j in 0..12u64 {
+            old.push(new[((idx * 12 + j) % new.len() as u64) as usize]);
+        }
+    }
+    old
+}
 
 // ------------------------------------------------------------------ small helpers
 
@@ -283,7 +318,21 @@ impl Agg {
             if s.failed.is_empty() {
                 continue;
             }
-            let vset = if s.failed == s.checked { "all".to_string() } else { s.failed.iter().map(|&i| VERS[i].1).collect::<Vec<_>>().join("+") };
+            // version set: `all`, or the names of the failing versions; the versions from Wod on that failed are rendered as
+            // `v18+` when they are all of the checked ones from Wod on
+            let vset = if s.failed == s.checked {
+                "all".to_string()
+            } else {
+                let mut parts: Vec<&str> = s.failed.iter().filter(|&&i| i < WOD).map(|&i| VERS[i].1).collect();
+                let newf: Vec<usize> = s.failed.iter().copied().filter(|&i| i >= WOD).collect();
+                let newc: Vec<usize> = s.checked.iter().copied().filter(|&i| i >= WOD).collect();
+                if !newf.is_empty() && newf == newc {
+                    parts.push("v18+");
+                } else {
+                    parts.extend(newf.iter().map(|&i| VERS[i].1));
+                }
+                parts.join("+")
+            };
             let vers: Vec<&str> = s.failed.iter().map(|&i| VERS[i].1).collect();
             let checked: Vec<&str> = s.checked.iter().map(|&i| VERS[i].1).collect();
             c.violate(format!("{clause}|{item}|{pred}|{vset}"), s.what, json!({"failed_versions": vers, "checked_versions": checked, "first": s.detail}));
@@ -1040,8 +1089,8 @@ fn check_root_case(c: &mut Case, seed: &[u8], s: &RootSpec) {
             c.count(&format!("root_framing_break_after|{last}"), 1);
             continue;
         }
-        let order_ok = cks.len() >= 2 && cks[0].id == "MVER" && cks[0].hi - cks[0].lo == 4 && u32at(&b1, cks[0].lo) == 17 && cks[1].id == "MOHD" && cks[1].hi - cks[1].lo >= 60;
-        agg.check("chunk-framing", "root-mver-mohd", "-", vi, order_ok, || (format!("written root ({vname}) does not start with MVER(17), MOHD"), json!({"chunks": cks.iter().map(|k| k.id.clone()).collect::<Vec<_>>()})));
+        let order_ok = cks.len() >= 2 && cks[0].id == "MVER" && cks[0].hi - cks[0].lo == 4 && u32at(&b1, cks[0].lo) == ver.to_raw() && cks[1].id == "MOHD" && cks[1].hi - cks[1].lo >= 60;
+        agg.check("chunk-framing", "root-mver-mohd", "-", vi, order_ok, || (format!("written root ({vname}) does not start with MVER({}), MOHD", ver.to_raw()), json!({"chunks": cks.iter().map(|k| k.id.clone()).collect::<Vec<_>>()})));
         if !order_ok {
             continue;
         }
@@ -1130,6 +1179,7 @@ fn check_root_case(c: &mut Case, seed: &[u8], s: &RootSpec) {
         };
         if let Some(r1) = &r1 {
             c.count("roots_parsed|WmoParser", 1);
+            agg.cmp(c, "root-roundtrip|WmoParser", "mver", "-", vi, &format!("{:?}", WmoVersion::from_raw(ver.to_raw())), &format!("{:?}", Some(r1.version)));
             let got = proj_root(r1);
             for (item, wv) in &want {
                 agg.cmp(c, "root-roundtrip|WmoParser", item, root_item_pred(s, item, vi, npred), vi, wv, got.get(item).map(|x| x.as_str()).unwrap_or("<absent>"));
@@ -1165,12 +1215,18 @@ fn check_root_case(c: &mut Case, seed: &[u8], s: &RootSpec) {
 
         // ---- (a) parse_wmo
         let mohd_last = cks.last().map(|k| k.id == "MOHD").unwrap_or(false);
+        let mut api_root: Option<wow_wmo::root_parser::WmoRoot> = None;
+        let mut api_failed = false;
         match lib(|| parse_wmo(&mut Cursor::new(&b1))) {
             Err(p) => agg.check("root-parse-panic|parse_wmo", &p.sig(), "-", vi, false, || (format!("parse_wmo panicked on the writer's root: {}", p.msg), json!({}))),
-            Ok(Err(e)) => agg.check("root-parse-err|parse_wmo", "own-output", if mohd_last { "mohd-is-last-chunk" } else { "mohd-followed" }, vi, false, || (format!("parse_wmo rejected the writer's root ({vname}): {e}"), json!({"err": e, "chunks": cks.iter().map(|k| k.id.clone()).collect::<Vec<_>>()}))),
+            Ok(Err(e)) => {
+                api_failed = true;
+                agg.check("root-parse-err|parse_wmo", "own-output", if mohd_last { "mohd-is-last-chunk" } else { "mohd-followed" }, vi, false, || (format!("parse_wmo rejected the writer's root ({vname}): {e}"), json!({"err": e, "chunks": cks.iter().map(|k| k.id.clone()).collect::<Vec<_>>()})))
+            }
             Ok(Ok(ParsedWmo::Group(_))) => agg.check("root-roundtrip|parse_wmo", "file-type", "-", vi, false, || (format!("parse_wmo classified the written root as a group file ({vname})"), json!({}))),
             Ok(Ok(ParsedWmo::Root(a))) => {
                 c.count("roots_parsed|parse_wmo", 1);
+                agg.cmp(c, "root-roundtrip|parse_wmo", "mver", "-", vi, &ver.to_raw().to_string(), &a.version.to_string());
                 let got = proj_root_api(&a);
                 for (item, wv) in &want {
                     // visible_block_lists: no counterpart (see EXCLUSIONS); every other item is compared
@@ -1181,12 +1237,153 @@ fn check_root_case(c: &mut Case, seed: &[u8], s: &RootSpec) {
                 let okmap = a.texture_offset_index_map.len() == s.textures.len() && toff.iter().enumerate().all(|(i, o)| a.texture_offset_index_map.get(o) == Some(&(i as u32)));
                 c.count("texture_maps_checked", 1);
                 agg.check("string-offset", "texture_offset_index_map|parse_wmo", "-", vi, okmap, || (format!("texture_offset_index_map does not map each texture's MOTX byte offset to its index ({vname})"), json!({"offsets": toff, "map": format!("{:?}", a.texture_offset_index_map)})));
+                api_root = Some(a);
             }
         }
+        alt_readers_root(c, &mut agg, vi, &b1, &cks, api_root.as_ref(), api_failed);
     }
     agg.flush(c);
     convert_root_pairs(c, seed, s);
     editor_history_root(c, seed, s);
+}
+
+// ------------------------------------------------------------------ the other readers of the public API
+//
+// parse_wmo_with_metadata, discover_wmo_chunks and root_parser::parse_root_file are further ways into the same parsers: on the
+// writer's bytes they must give what parse_wmo gave (which the legs above compare with the model), and the chunk list they
+// report must be the one the independent walker found.
+
+/// Everything of a root_parser::WmoRoot: the projection, the offset map and the remaining fields (Debug rendering).
+fn api_root_full(a: &wow_wmo::root_parser::WmoRoot) -> BTreeMap<String, String> {
+    let mut m: BTreeMap<String, String> = proj_root_api(a).into_iter().map(|(k, v)| (k.to_string(), v)).collect();
+    let mut tm: Vec<(u32, u32)> = a.texture_offset_index_map.iter().map(|(k, v)| (*k, *v)).collect();
+    tm.sort();
+    m.insert("texture_offset_index_map".into(), format!("{tm:?}"));
+    m.insert("mver".into(), a.version.to_string());
+    m.insert("other".into(), format!("{:?}", (a.wmo_id, a.num_lod, &a.visible_vertices, &a.visible_blocks, &a.doodad_names, &a.portal_vertices, a.fogs.len(), a.convex_volume_planes.len())));
+    m
+}
+fn walker_chunk_list(cks: &[Ck]) -> Vec<(String, u64, u32)> {
+    cks.iter().map(|k| (k.id.clone(), (k.lo - 8) as u64, (k.hi - k.lo) as u32)).collect()
+}
+fn discovery_list(d: &wow_wmo::chunk_discovery::ChunkDiscovery) -> Vec<(String, u64, u32)> {
+    d.chunks.iter().map(|k| (k.id.as_str().to_string(), k.offset, k.size)).collect()
+}
+fn discovery_clean(d: &wow_wmo::chunk_discovery::ChunkDiscovery, file_len: usize) -> bool {
+    d.file_size == file_len as u64 && !d.has_malformed_chunks() && !d.has_unknown_chunks() && !d.is_truncated() && d.total_chunks() == d.chunks.len()
+}
+
+fn alt_readers_root(c: &mut Case, agg: &mut Agg, vi: usize, b1: &[u8], cks: &[Ck], base: Option<&wow_wmo::root_parser::WmoRoot>, base_failed: bool) {
+    let vname = VERS[vi].1;
+    let want_list = walker_chunk_list(cks);
+    // ---- discover_wmo_chunks against the walker
+    let disc = match lib(|| wow_wmo::discover_wmo_chunks(&mut Cursor::new(b1))) {
+        Err(p) => {
+            agg.check("alt-reader-panic", &format!("discover_wmo_chunks|root|{}", p.sig()), "-", vi, false, || (format!("discover_wmo_chunks panicked on the writer's root: {}", p.msg), json!({})));
+            None
+        }
+        Ok(Err(e)) => {
+            agg.check("alt-reader", "discover_wmo_chunks|root|error", "-", vi, false, || (format!("discover_wmo_chunks rejected the writer's root ({vname}): {e}"), json!({"err": e})));
+            None
+        }
+        Ok(Ok(d)) => {
+            c.count("chunk_discoveries_compared_with_walker|root", 1);
+            let got = discovery_list(&d);
+            agg.check("alt-reader", "discover_wmo_chunks|root|chunk-list", "-", vi, got == want_list, || (format!("discover_wmo_chunks lists other chunks (id, offset, size) than the walker finds in the written root ({vname})"), json!({"walker": format!("{want_list:?}"), "discovery": format!("{got:?}")})));
+            agg.check("alt-reader", "discover_wmo_chunks|root|status", "-", vi, discovery_clean(&d, b1.len()), || (format!("discover_wmo_chunks reports file size {} (written {}), malformed {}, unknown {}, truncated {} for the writer's root ({vname})", d.file_size, b1.len(), d.malformed_count(), d.unknown_count(), d.is_truncated()), json!({})));
+            Some(d)
+        }
+    };
+    let Some(base) = base else {
+        if base_failed {
+            // parse_wmo refused the file: the other entry points must not read something out of it either
+            if let Ok(Ok(_)) = lib(|| wow_wmo::parse_wmo_with_metadata(&mut Cursor::new(b1))) {
+                agg.check("alt-reader", "parse_wmo_with_metadata|root|outcome", "-", vi, false, || (format!("parse_wmo_with_metadata accepts a root that parse_wmo rejects ({vname})"), json!({})));
+            }
+        }
+        return;
+    };
+    let want = api_root_full(base);
+    let compare = |c: &mut Case, agg: &mut Agg, name: &str, got: &wow_wmo::root_parser::WmoRoot| {
+        let got = api_root_full(got);
+        for (item, wv) in &want {
+            c.count("alt_reader_items_compared", 1);
+            let gv = got.get(item).map(|x| x.as_str()).unwrap_or("<absent>");
+            agg.check("alt-reader", &format!("{name}|root|{item}"), "-", vi, wv == gv, || (format!("{name} and parse_wmo read {item} differently from the same written root ({vname}): parse_wmo {} {name} {}", clip(wv), clip(gv)), diff_detail(wv, gv)));
+        }
+    };
+    // ---- parse_wmo_with_metadata against parse_wmo, its discovery against the walker
+    match lib(|| wow_wmo::parse_wmo_with_metadata(&mut Cursor::new(b1))) {
+        Err(p) => agg.check("alt-reader-panic", &format!("parse_wmo_with_metadata|root|{}", p.sig()), "-", vi, false, || (format!("parse_wmo_with_metadata panicked on the writer's root: {}", p.msg), json!({}))),
+        Ok(Err(e)) => agg.check("alt-reader", "parse_wmo_with_metadata|root|outcome", "-", vi, false, || (format!("parse_wmo_with_metadata rejects a root that parse_wmo reads ({vname}): {e}"), json!({"err": e}))),
+        Ok(Ok(res)) => {
+            c.count("roots_parsed|parse_wmo_with_metadata", 1);
+            let got = res.metadata().map(discovery_list);
+            agg.check("alt-reader", "parse_wmo_with_metadata|root|chunk-list", "-", vi, got.as_ref() == Some(&want_list), || (format!("the metadata of parse_wmo_with_metadata lists other chunks than the walker finds in the written root ({vname})"), json!({"walker": format!("{want_list:?}"), "metadata": format!("{got:?}")})));
+            match &res.wmo {
+                ParsedWmo::Root(a) => compare(c, agg, "parse_wmo_with_metadata", a),
+                ParsedWmo::Group(_) => agg.check("alt-reader", "parse_wmo_with_metadata|root|file-type", "-", vi, false, || (format!("parse_wmo_with_metadata classified the written root as a group file ({vname})"), json!({}))),
+            }
+        }
+    }
+    // ---- root_parser::parse_root_file on the discovery of discover_wmo_chunks
+    if let Some(d) = disc {
+        match lib(|| wow_wmo::root_parser::parse_root_file(&mut Cursor::new(b1), d)) {
+            Err(p) => agg.check("alt-reader-panic", &format!("parse_root_file|root|{}", p.sig()), "-", vi, false, || (format!("parse_root_file panicked on the writer's root: {}", p.msg), json!({}))),
+            Ok(Err(e)) => agg.check("alt-reader", "parse_root_file|root|outcome", "-", vi, false, || (format!("parse_root_file rejects a root that parse_wmo reads ({vname}): {e}"), json!({"err": e}))),
+            Ok(Ok(a)) => {
+                c.count("roots_parsed|parse_root_file", 1);
+                compare(c, agg, "parse_root_file", &a);
+            }
+        }
+    }
+}
+
+fn api_group_full(g: &wow_wmo::group_parser::WmoGroup) -> BTreeMap<String, String> {
+    let mut m: BTreeMap<String, String> = proj_group_api(g).into_iter().map(|(k, v)| (k.to_string(), v)).collect();
+    m.insert("mver".into(), g.version.to_string());
+    m.insert("counts".into(), format!("{:?}", (g.n_triangles, g.n_vertices, g.group_index, g.descriptive_name_index, g.portal_start, g.portal_count, g.trans_batch_count, g.int_batch_count, g.ext_batch_count, g.group_liquid, g.area_table_id, g.flags2)));
+    m
+}
+
+/// `base` = what parse_wmo read from the written group `b1`.
+fn alt_readers_group(c: &mut Case, agg: &mut Agg, vi: usize, b1: &[u8], base: &wow_wmo::group_parser::WmoGroup) {
+    let vname = VERS[vi].1;
+    if b1.len() < 20 || u32at(b1, 16) as usize != b1.len() - 20 {
+        return; // a wrong MOGP size field is judged by "mogp-size"; no chunk list to agree on
+    }
+    // top level of a group file: MVER, then MOGP up to the end of the file (the walker's own reading, see "group-mver-mogp")
+    let want_list: Vec<(String, u64, u32)> = vec![("MVER".into(), 0, 4), ("MOGP".into(), 12, (b1.len() - 20) as u32)];
+    match lib(|| wow_wmo::discover_wmo_chunks(&mut Cursor::new(b1))) {
+        Err(p) => agg.check("alt-reader-panic", &format!("discover_wmo_chunks|group|{}", p.sig()), "-", vi, false, || (format!("discover_wmo_chunks panicked on the writer's group: {}", p.msg), json!({}))),
+        Ok(Err(e)) => agg.check("alt-reader", "discover_wmo_chunks|group|error", "-", vi, false, || (format!("discover_wmo_chunks rejected the writer's group ({vname}): {e}"), json!({"err": e}))),
+        Ok(Ok(d)) => {
+            c.count("chunk_discoveries_compared_with_walker|group", 1);
+            let got = discovery_list(&d);
+            agg.check("alt-reader", "discover_wmo_chunks|group|chunk-list", "-", vi, got == want_list, || (format!("discover_wmo_chunks lists other top-level chunks than MVER and an MOGP that reaches the end of the written group ({vname})"), json!({"walker": format!("{want_list:?}"), "discovery": format!("{got:?}")})));
+            agg.check("alt-reader", "discover_wmo_chunks|group|status", "-", vi, discovery_clean(&d, b1.len()), || (format!("discover_wmo_chunks reports file size {} (written {}), malformed {}, unknown {}, truncated {} for the writer's group ({vname})", d.file_size, b1.len(), d.malformed_count(), d.unknown_count(), d.is_truncated()), json!({})));
+        }
+    }
+    match lib(|| wow_wmo::parse_wmo_with_metadata(&mut Cursor::new(b1))) {
+        Err(p) => agg.check("alt-reader-panic", &format!("parse_wmo_with_metadata|group|{}", p.sig()), "-", vi, false, || (format!("parse_wmo_with_metadata panicked on the writer's group: {}", p.msg), json!({}))),
+        Ok(Err(e)) => agg.check("alt-reader", "parse_wmo_with_metadata|group|outcome", "-", vi, false, || (format!("parse_wmo_with_metadata rejects a group that parse_wmo reads ({vname}): {e}"), json!({"err": e}))),
+        Ok(Ok(res)) => {
+            c.count("groups_parsed|parse_wmo_with_metadata", 1);
+            let got = res.metadata().map(discovery_list);
+            agg.check("alt-reader", "parse_wmo_with_metadata|group|chunk-list", "-", vi, got.as_ref() == Some(&want_list), || (format!("the metadata of parse_wmo_with_metadata lists other top-level chunks than MVER and MOGP for the written group ({vname})"), json!({"walker": format!("{want_list:?}"), "metadata": format!("{got:?}")})));
+            match &res.wmo {
+                ParsedWmo::Group(g) => {
+                    let (want, got) = (api_group_full(base), api_group_full(g));
+                    for (item, wv) in &want {
+                        c.count("alt_reader_items_compared", 1);
+                        let gv = got.get(item).map(|x| x.as_str()).unwrap_or("<absent>");
+                        agg.check("alt-reader", &format!("parse_wmo_with_metadata|group|{item}"), "-", vi, wv == gv, || (format!("parse_wmo_with_metadata and parse_wmo read {item} differently from the same written group ({vname})"), diff_detail(wv, gv)));
+                    }
+                }
+                ParsedWmo::Root(_) => agg.check("alt-reader", "parse_wmo_with_metadata|group|file-type", "-", vi, false, || (format!("parse_wmo_with_metadata classified the written group as a root file ({vname})"), json!({}))),
+            }
+        }
+    }
 }
 
 // ------------------------------------------------------------------ root: editing histories (after C15-r6m1)
@@ -1194,20 +1391,75 @@ fn check_root_case(c: &mut Case, seed: &[u8], s: &RootSpec) {
 // The count clause quantifies over every root the API can produce, not only over roots whose header was filled in by
 // hand: an editor session adds and removes elements of every list in any order (refused removals included) and saves;
 // the walker then counts the records in the file. Expectation = a plain tally of the accepted operations.
+/// What an editor session left behind: the saved root, what it has to read back as, and the loaded groups as saved.
+struct EdOut {
+    root_bytes: Vec<u8>,
+    want: Proj,
+    bbox_bits: [u32; 6],
+    bbox_is_union: bool,
+    doodads_canonical: bool,
+    groups: Vec<(usize, Proj, Result<Vec<u8>, String>)>,
+    root_modified: bool,
+}
+/// The fold both the parser and the editor use for "bounds of the whole object" (zeros without groups).
+fn union_of_group_infos(root: &WmoRoot) -> [u32; 6] {
+    if root.groups.is_empty() {
+        return [fb(0.0); 6];
+    }
+    let mut b = [f32::MAX, f32::MAX, f32::MAX, f32::MIN, f32::MIN, f32::MIN];
+    for g in &root.groups {
+        let bb = &g.bounding_box;
+        b[0] = b[0].min(bb.min.x);
+        b[1] = b[1].min(bb.min.y);
+        b[2] = b[2].min(bb.min.z);
+        b[3] = b[3].max(bb.max.x);
+        b[4] = b[4].max(bb.max.y);
+        b[5] = b[5].max(bb.max.z);
+    }
+    b.map(fb)
+}
+/// Group index for an editor operation: mostly one of the loaded groups, sometimes any index up to one past the end.
+fn gpick(r: &mut Rng, ed: &wow_wmo::WmoEditor) -> usize {
+    let n = ed.group_count() + 2;
+    let loaded: Vec<usize> = (0..n).filter(|&i| ed.group(i).is_some()).collect();
+    if loaded.is_empty() || r.chance(1, 4) { r.usize(n) } else { *r.pick(&loaded) }
+}
+fn vbits(ed: &wow_wmo::WmoEditor, gi: usize) -> Option<Vec<[u32; 3]>> {
+    ed.group(gi).map(|g| g.vertices.iter().map(v3b).collect())
+}
+
 fn editor_history_root(c: &mut Case, seed: &[u8], s: &RootSpec) {
     let vi = (c.idx % VERS.len() as u64) as usize;
-    let vname = VERS[vi].1;
+    let (ver, vname) = VERS[vi];
     let Ok(model) = build_root(seed, s, vi, false) else { return };
     let mut r = Rng::for_case(0xED17, c.idx, 15);
-    let (pm, pd, ps) = (model.materials.first().cloned(), model.doodad_defs.first().cloned(), model.doodad_sets.first().cloned());
-    let mut tally = [model.materials.len(), model.groups.len(), model.doodad_defs.len(), model.doodad_sets.len(), model.textures.len()];
+    let (pm, pd, ps, pl) = (model.materials.first().cloned(), model.doodad_defs.first().cloned(), model.doodad_sets.first().cloned(), model.lights.first().cloned());
+    // materials, groups, doodad definitions, doodad sets, textures, lights
+    let mut tally = [model.materials.len(), model.groups.len(), model.doodad_defs.len(), model.doodad_sets.len(), model.textures.len(), model.lights.len()];
+    // up to two of the root's groups are loaded into the session (vertices ordinary finite numbers, so that recalculated bounds
+    // are unambiguous)
+    let n_load = model.groups.len().min(r.usize(3));
+    let mut loads: Vec<WmoGroup> = (0..n_load)
+        .map(|k| {
+            let mut gr = Rng::for_case(0xED18, c.idx, k as u64);
+            let mut gs = gen_group(&mut gr, 3 + k as u64, 6, None);
+            gs.verts = (0..gs.verts.len()).map(|_| [fnice(&mut gr), fnice(&mut gr), fnice(&mut gr)]).collect();
+            gs.gidx = k as u32;
+            build_group(&gs, gs.flags)
+        })
+        .collect();
     let mut model = Some(model);
-    let nops = 1 + r.usize(12);
+    let nops = 1 + r.usize(16);
     let mut hist: Vec<String> = Vec::new();
-    let res = lib(|| -> Result<Vec<u8>, String> {
+    let res = lib(|| -> Result<EdOut, String> {
         let mut ed = wow_wmo::WmoEditor::new(model.take().unwrap());
+        for g in loads.drain(..) {
+            let gi = g.header.group_index;
+            ed.add_group(g).map_err(|e| format!("SAVE add_group({gi}): {e}"))?;
+            hist.push(format!("add_group({gi})"));
+        }
         for _ in 0..nops {
-            let k = r.usize(10);
+            let k = r.usize(20);
             // removal index: usually inside the list, sometimes one past the end (a refused operation between accepted ones)
             let pick = |r: &mut Rng, n: usize| if n == 0 || r.chance(1, 6) { n } else { r.usize(n) };
             match k {
@@ -1269,30 +1521,191 @@ fn editor_history_root(c: &mut Case, seed: &[u8], s: &RootSpec) {
                     }
                     hist.push(format!("remove_doodad_set({i})={ok}"));
                 }
-                _ => {
+                9 => {
                     ed.add_texture(format!("edited\\tex_{}.blp", hist.len()));
                     tally[4] += 1;
                     hist.push("add_texture".into());
                 }
+                10 => {
+                    let i = pick(&mut r, tally[4]);
+                    let ok = ed.remove_texture(i).is_ok();
+                    if ok {
+                        tally[4] -= 1;
+                    }
+                    hist.push(format!("remove_texture({i})={ok}"));
+                }
+                11 | 12 => {
+                    // the vertex list of a loaded group after add_vertex = the list before + that vertex; a refusal changes nothing
+                    let gi = gpick(&mut r, &ed);
+                    let v = mkv3([fnice(&mut r), fnice(&mut r), fnice(&mut r)]);
+                    let pre = vbits(&ed, gi);
+                    let got = ed.add_vertex(gi, v).ok();
+                    let post = vbits(&ed, gi);
+                    hist.push(format!("add_vertex({gi})={}", got.is_some()));
+                    let want = match (got, &pre) {
+                        (Some(i), Some(p)) if i == p.len() => {
+                            let mut w = p.clone();
+                            w.push(v3b(&v));
+                            Some(w)
+                        }
+                        (Some(i), _) => return Err(format!("VERTS|add_vertex|accepted for group {gi} ({} vertices before, loaded: {}) and returned index {i}", pre.as_ref().map(|p| p.len()).unwrap_or(0), pre.is_some())),
+                        (None, p) => p.clone(),
+                    };
+                    if post != want {
+                        return Err(format!("VERTS|add_vertex|group {gi}: {:?} vertices before, {:?} after, accepted: {}", pre.as_ref().map(|p| p.len()), post.as_ref().map(|p| p.len()), got.is_some()));
+                    }
+                }
+                13 => {
+                    let gi = gpick(&mut r, &ed);
+                    let pre = vbits(&ed, gi);
+                    let vx = pick(&mut r, pre.as_ref().map(|p| p.len()).unwrap_or(0));
+                    let got = ed.remove_vertex(gi, vx).ok().map(|v| v3b(&v));
+                    let post = vbits(&ed, gi);
+                    hist.push(format!("remove_vertex({gi},{vx})={}", got.is_some()));
+                    let want = match (&got, &pre) {
+                        (Some(v), Some(p)) if vx < p.len() && p[vx] == *v => {
+                            let mut w = p.clone();
+                            w.remove(vx);
+                            Some(w)
+                        }
+                        (Some(_), _) => return Err(format!("VERTS|remove_vertex|accepted for group {gi}, vertex {vx} of {:?}, and returned something other than that vertex", pre.as_ref().map(|p| p.len()))),
+                        (None, p) => (*p).clone(),
+                    };
+                    if post != want {
+                        return Err(format!("VERTS|remove_vertex|group {gi}, vertex {vx}: {:?} vertices before, {:?} after, accepted: {}", pre.as_ref().map(|p| p.len()), post.as_ref().map(|p| p.len()), got.is_some()));
+                    }
+                }
+                14 => {
+                    let gi = gpick(&mut r, &ed);
+                    let ok = ed.recalculate_group_bounding_box(gi).is_ok();
+                    hist.push(format!("recalculate_group_bounding_box({gi})={ok}"));
+                }
+                15 => {
+                    let ok = ed.recalculate_global_bounding_box().is_ok();
+                    hist.push(format!("recalculate_global_bounding_box={ok}"));
+                }
+                16 => {
+                    // edits through root_mut: the lists grow behind the header's back
+                    let sub = r.usize(5);
+                    let root = ed.root_mut();
+                    match sub {
+                        0 => root.header.ambient_color = mkcol(col_any(&mut r)),
+                        1 => {
+                            if let Some(l) = &pl {
+                                root.lights.push(l.clone());
+                                tally[5] += 1;
+                            }
+                        }
+                        2 => root.visible_block_lists.push(vec![1, 2, (r.next_u32() as u16).min(0xFFFE)]),
+                        3 => {
+                            root.textures.push(format!("edited\\rm_{}.blp", hist.len()));
+                            tally[4] += 1;
+                        }
+                        _ => {
+                            if let Some(m) = &pm {
+                                root.materials.push(m.clone());
+                                tally[0] += 1;
+                            }
+                        }
+                    }
+                    hist.push(format!("root_mut:{}", ["ambient", "push-light", "push-visible-list", "push-texture", "push-material"][sub]));
+                }
+                17 => {
+                    let i = pick(&mut r, tally[0]);
+                    let some = if let Some(m) = ed.material_mut(i) {
+                        m.shader = r.next_u32();
+                        m.blend_mode = r.next_u32();
+                        m.diffuse_color = mkcol(col_any(&mut r));
+                        m.flags = WmoMaterialFlags::from_bits_truncate(r.next_u32() & 0xFFF);
+                        true
+                    } else {
+                        false
+                    };
+                    hist.push(format!("material_mut({i})={some}"));
+                }
+                18 => {
+                    let i = pick(&mut r, tally[4]);
+                    let n = hist.len();
+                    let some = if let Some(t) = ed.texture_mut(i) {
+                        *t = format!("edited\\tm_{n}.blp");
+                        true
+                    } else {
+                        false
+                    };
+                    hist.push(format!("texture_mut({i})={some}"));
+                }
+                _ => {
+                    let gi = gpick(&mut r, &ed);
+                    let sub = r.usize(4);
+                    let some = if let Some(g) = ed.group_mut(gi) {
+                        match sub {
+                            0 => g.vertices.push(mkv3([fnice(&mut r), fnice(&mut r), fnice(&mut r)])),
+                            1 => g.header.flags = WmoGroupFlags::from_bits_truncate(r.next_u32() & 0x3FFFF),
+                            2 => g.indices.extend([r.next_u32() as u16, r.next_u32() as u16, r.next_u32() as u16]),
+                            _ => g.vertex_colors = Some((0..1 + r.usize(4)).map(|_| mkcol(col_any(&mut r))).collect()),
+                        }
+                        true
+                    } else {
+                        false
+                    };
+                    hist.push(format!("group_mut({gi}):{}={some}", ["push-vertex", "flags", "push-indices", "colours"][sub]));
+                }
             }
         }
-        let lens = [ed.root().materials.len(), ed.root().groups.len(), ed.root().doodad_defs.len(), ed.root().doodad_sets.len(), ed.root().textures.len()];
+        let root = ed.root();
+        let lens = [root.materials.len(), root.groups.len(), root.doodad_defs.len(), root.doodad_sets.len(), root.textures.len(), root.lights.len()];
         if lens != tally {
             return Err(format!("LISTS {lens:?}"));
         }
+        // what the session holds is what the saved file has to read back as: skybox and its flag as the target version allows,
+        // header counts = list lengths (whatever the in-memory header says)
+        let mut want = proj_root(root);
+        let sky_written = vi >= WOTLK && root.skybox.is_some();
+        want.insert("skybox", format!("{:?}", if sky_written { root.skybox.clone() } else { None }));
+        want.insert("header.flags", format!("{:#x}", (root.header.flags.bits() & !0x20) | if sky_written { 0x20 } else { 0 }));
+        want.insert("header.counts", format!("{:?}", [root.materials.len(), root.groups.len(), root.portals.len(), root.lights.len(), root.doodad_defs.len(), root.doodad_defs.len(), root.doodad_sets.len()].map(|x| x as u32)));
+        let bbox_bits = bbb(&root.bounding_box);
+        let bbox_is_union = bbox_bits == union_of_group_infos(root);
+        let doodads_canonical = root.doodad_defs.iter().map(|d| d.name_offset).eq(canonical_doodad_offsets(root.doodad_defs.len()));
         let mut cur = Cursor::new(Vec::new());
         ed.save_root(&mut cur).map_err(|e| format!("SAVE {e}"))?;
-        Ok(cur.into_inner())
+        let mut groups = Vec::new();
+        for gi in 0..ed.group_count() + 3 {
+            if groups.len() >= 4 {
+                break;
+            }
+            if let Some(g) = ed.group(gi) {
+                let want = proj_group(g);
+                let mut gc = Cursor::new(Vec::new());
+                let res = ed.save_group(&mut gc, gi).map(|_| gc.into_inner()).map_err(|e| e.to_string());
+                groups.push((gi, want, res));
+            }
+        }
+        Ok(EdOut { root_bytes: cur.into_inner(), want, bbox_bits, bbox_is_union, doodads_canonical, groups, root_modified: ed.is_root_modified() })
     });
     c.count("editor_histories", 1);
     c.count("editor_history_ops", hist.len() as u64);
-    let b = match res {
+    for h in &hist {
+        let name = h.split(['(', '=', ':']).next().unwrap_or("");
+        if ["remove_texture", "add_vertex", "remove_vertex", "recalculate_group_bounding_box", "recalculate_global_bounding_box", "root_mut", "material_mut", "texture_mut", "group_mut", "add_group"].contains(&name) {
+            c.count(&format!("editor_history_op|{name}"), 1);
+            if h.ends_with("=true") {
+                c.count(&format!("editor_history_op_accepted|{name}"), 1);
+            }
+        }
+    }
+    let out = match res {
         Err(p) => {
             c.violate(format!("editor-history-panic|{}", p.sig()), format!("editor session panicked after {hist:?}: {}", p.msg), json!({"history": hist}));
             return;
         }
         Ok(Err(e)) if e.starts_with("LISTS") => {
-            c.violate("editor-history|lists-ne-tally", format!("after {hist:?} the editor's lists have lengths {e} (materials, groups, doodad defs, doodad sets, textures), the accepted operations give {tally:?}"), json!({"history": hist}));
+            c.violate("editor-history|lists-ne-tally", format!("after {hist:?} the editor's lists have lengths {e} (materials, groups, doodad defs, doodad sets, textures, lights), the accepted operations give {tally:?}"), json!({"history": hist}));
+            return;
+        }
+        Ok(Err(e)) if e.starts_with("VERTS|") => {
+            let op = e.split('|').nth(1).unwrap_or("?").to_string();
+            c.violate(format!("editor-history|vertices-ne-tally|{op}"), format!("after {hist:?}: {}", e.splitn(3, '|').nth(2).unwrap_or("")), json!({"history": hist}));
             return;
         }
         Ok(Err(e)) => {
@@ -1300,24 +1713,29 @@ fn editor_history_root(c: &mut Case, seed: &[u8], s: &RootSpec) {
             c.note(json!({"editor_history_save_err": e, "history": hist}));
             return;
         }
-        Ok(Ok(b)) => b,
+        Ok(Ok(o)) => o,
     };
-    let (cks, ferr) = walk(&b, 0, b.len(), ROOT_MAGICS);
+    if out.root_modified {
+        c.count("editor_history_root_marked_modified", 1);
+    }
+    let b = &out.root_bytes;
+    let (cks, ferr) = walk(b, 0, b.len(), ROOT_MAGICS);
     if ferr.is_some() || find(&cks, "MOHD").is_none() {
         // framing of saved roots is judged in check_root_case; without it nothing can be counted here
         c.count("editor_history_unwalkable", 1);
         return;
     }
-    let mohd = data(&b, &cks, "MOHD");
-    let modn = data(&b, &cks, "MODN");
+    let mohd = data(b, &cks, "MOHD");
+    let modn = data(b, &cks, "MODN");
     let n_modn_strings = modn.split(|&x| x == 0).filter(|x| !x.is_empty()).count();
-    let fields: [(&str, usize, usize, usize, usize); 6] = [
-        ("n_materials", 0, data(&b, &cks, "MOMT").len(), 64, tally[0]),
-        ("n_groups", 4, data(&b, &cks, "MOGI").len(), 32, tally[1]),
+    let fields: [(&str, usize, usize, usize, usize); 7] = [
+        ("n_materials", 0, data(b, &cks, "MOMT").len(), 64, tally[0]),
+        ("n_groups", 4, data(b, &cks, "MOGI").len(), 32, tally[1]),
+        ("n_lights", 12, data(b, &cks, "MOLT").len(), 48, tally[5]),
         ("n_doodad_names", 16, n_modn_strings, 1, tally[2]),
-        ("n_doodad_defs", 20, data(&b, &cks, "MODD").len(), 40, tally[2]),
-        ("n_doodad_sets", 24, data(&b, &cks, "MODS").len(), 32, tally[3]),
-        ("textures", usize::MAX, data(&b, &cks, "MOTX").split(|&x| x == 0).filter(|x| !x.is_empty()).count(), 1, tally[4]),
+        ("n_doodad_defs", 20, data(b, &cks, "MODD").len(), 40, tally[2]),
+        ("n_doodad_sets", 24, data(b, &cks, "MODS").len(), 32, tally[3]),
+        ("textures", usize::MAX, data(b, &cks, "MOTX").split(|&x| x == 0).filter(|x| !x.is_empty()).count(), 1, tally[4]),
     ];
     for (field, off, bytes, rec, want) in fields {
         c.count("editor_history_counts_checked", 1);
@@ -1328,15 +1746,78 @@ fn editor_history_root(c: &mut Case, seed: &[u8], s: &RootSpec) {
             c.violate(format!("header-count-ne-list|{field}|editor-history"), format!("after {hist:?} MOHD.{field} = {} but the saved root ({vname}) holds {in_file} records in the list's chunk", u32at(mohd, off)), json!({"history": hist, "version": vname, "header": u32at(mohd, off), "in_file": in_file}));
         }
     }
+    // ---- save -> parse of the edited root: the file reads back as what the session held
+    if mohd.len() >= 60 {
+        let wb: Vec<u32> = (0..6).map(|k| u32at(mohd, 36 + 4 * k)).collect();
+        c.count("editor_history_items_compared", 1);
+        if wb[..] != out.bbox_bits[..] {
+            c.violate("editor-history|save-root-walker|bounding_box", format!("after {hist:?} the saved root ({vname}) stores bounds {wb:?} in MOHD, the session holds {:?}", out.bbox_bits), json!({"history": hist, "version": vname}));
+        }
+    }
+    match lib(|| WmoParser::new().parse_root(&mut Cursor::new(b))) {
+        Err(p) => c.violate(format!("editor-history-panic|parse_root|{}", p.sig()), format!("WmoParser::parse_root panicked on the root saved after {hist:?}: {}", p.msg), json!({"history": hist})),
+        Ok(Err(e)) => c.violate("editor-history|save-root-parse-err", format!("WmoParser::parse_root rejects the root saved after {hist:?} ({vname}): {e}"), json!({"history": hist, "err": e})),
+        Ok(Ok(p)) => {
+            c.count("editor_history_roots_parsed", 1);
+            let got = proj_root(&p);
+            for (item, wv) in &out.want {
+                // the two deliberate parser/writer substitutions (known findings of the main leg) are compared only where
+                // they are the identity: bounds that are the union of the group boxes, doodad name offsets in canonical position
+                if (*item == "bounding_box" && !out.bbox_is_union) || (*item == "doodad_defs.name_offset" && !out.doodads_canonical) {
+                    c.count("editor_history_items_left_to_known_substitutions", 1);
+                    continue;
+                }
+                c.count("editor_history_items_compared", 1);
+                if got[item] != *wv {
+                    c.violate(format!("editor-history|save-root-roundtrip|{item}"), format!("after {hist:?} the saved root ({vname}) reads back with another {item}: session {} file {}", clip(wv), clip(&got[item])), json!({"history": hist, "version": vname, "diff": diff_detail(wv, &got[item])}));
+                }
+            }
+        }
+    }
+    // ---- the loaded groups as saved by the session
+    for (gi, want, res) in &out.groups {
+        let gb = match res {
+            Err(e) => {
+                c.count("editor_history_save_group_err", 1);
+                c.note(json!({"editor_history_save_group_err": e, "group": gi, "history": hist}));
+                continue;
+            }
+            Ok(gb) => gb,
+        };
+        c.count("editor_history_groups_saved", 1);
+        let top_ok = gb.len() >= 88 && &gb[0..4] == b"REVM" && u32at(gb, 8) == ver.to_raw() && &gb[12..16] == b"PGOM" && u32at(gb, 16) as usize == gb.len() - 20;
+        if !top_ok {
+            c.violate("editor-history|save-group-framing", format!("after {hist:?} group {gi} saved by the session ({vname}) is not MVER + an MOGP with a 68-byte header that reaches the end of the file"), json!({"history": hist, "head": vh_common::hex(&gb[..gb.len().min(24)]), "len": gb.len()}));
+            continue;
+        }
+        match lib(|| parse_wmo(&mut Cursor::new(gb))) {
+            Err(p) => c.violate(format!("editor-history-panic|parse_wmo|{}", p.sig()), format!("parse_wmo panicked on group {gi} saved after {hist:?}: {}", p.msg), json!({"history": hist})),
+            Ok(Ok(ParsedWmo::Group(g))) => {
+                c.count("editor_history_groups_parsed", 1);
+                for (item, gv) in &proj_group_api(&g) {
+                    if *item == "doodad_refs" {
+                        continue; // see EXCLUSIONS
+                    }
+                    c.count("editor_history_items_compared", 1);
+                    if want[item] != *gv {
+                        c.violate(format!("editor-history|save-group-roundtrip|{item}"), format!("after {hist:?} group {gi} saved by the session ({vname}) reads back with other {item}: session {} file {}", clip(&want[item]), clip(gv)), json!({"history": hist, "version": vname, "diff": diff_detail(&want[item], gv)}));
+                    }
+                }
+            }
+            Ok(Ok(ParsedWmo::Root(_))) => c.violate("editor-history|save-group-roundtrip|file-type", format!("parse_wmo classified group {gi} saved after {hist:?} as a root file"), json!({"history": hist})),
+            Ok(Err(e)) => c.violate("editor-history|save-group-parse-err", format!("parse_wmo rejects group {gi} saved after {hist:?} ({vname}): {e}"), json!({"history": hist, "err": e})),
+        }
+    }
 }
+
 
 // ------------------------------------------------------------------ root: conversions over all version pairs
 
 fn convert_root_pairs(c: &mut Case, seed: &[u8], s: &RootSpec) {
     let conv = WmoConverter::new();
     let w = WmoWriter::new();
-    for from in 0..VERS.len() {
-        for to in 0..VERS.len() {
+    {
+        for (from, to) in conversion_pairs(c.idx) {
             let pair = format!("{}->{}", VERS[from].1, VERS[to].1);
             // source: the spec as a valid root of version `from`; expectation: the spec as a valid root of version
             // `to`, restricted to what `from` could carry (skybox only if both support it, shadow-batch material
@@ -1541,10 +2022,10 @@ fn group_desc(s: &GroupSpec) -> Value {
         "flags": format!("{:#x}", s.flags), "name_offset": s.name_off, "group_index": s.gidx})
 }
 
-/// Flags the library's feature model allows for a group of version vi (Classic..MoP: never MOUNT_ALLOWED,
+/// Flags the library's feature model allows for a group of version vi (MOUNT_ALLOWED only from Legion on,
 /// the three scene-graph / motion / exterior-BSP bits only from Cataclysm on).
 fn valid_group_flags(flags: u32, vi: usize) -> u32 {
-    let mut f = flags & !WmoGroupFlags::MOUNT_ALLOWED.bits();
+    let mut f = if vi < LEGION { flags & !WmoGroupFlags::MOUNT_ALLOWED.bits() } else { flags };
     if vi < CATA {
         f &= !(WmoGroupFlags::HAS_MORE_MOTION_TYPES | WmoGroupFlags::USE_SCENE_GRAPH | WmoGroupFlags::EXTERIOR_BSP).bits();
     }
@@ -1837,8 +2318,8 @@ fn check_group_case(c: &mut Case, s: &GroupSpec) {
         }
 
         // ---- walker: MVER, MOGP and its back-patched size
-        let top_ok = b1.len() >= 20 && &b1[0..4] == b"REVM" && u32at(&b1, 4) == 4 && u32at(&b1, 8) == 17 && &b1[12..16] == b"PGOM";
-        agg.check("chunk-framing", "group-mver-mogp", "-", vi, top_ok, || (format!("written group ({vname}) does not start with MVER(17) followed by MOGP"), json!({"head": vh_common::hex(&b1[..b1.len().min(24)])})));
+        let top_ok = b1.len() >= 20 && &b1[0..4] == b"REVM" && u32at(&b1, 4) == 4 && u32at(&b1, 8) == ver.to_raw() && &b1[12..16] == b"PGOM";
+        agg.check("chunk-framing", "group-mver-mogp", "-", vi, top_ok, || (format!("written group ({vname}) does not start with MVER({}) followed by MOGP", ver.to_raw()), json!({"head": vh_common::hex(&b1[..b1.len().min(24)])})));
         if !top_ok {
             continue;
         }
@@ -1873,6 +2354,12 @@ fn check_group_case(c: &mut Case, s: &GroupSpec) {
         for (item, id) in [("vertices", "MOVT"), ("indices", "MOVI"), ("normals", "MONR"), ("tex_coords", "MOTV"), ("colors", "MOCV"), ("batches", "MOBA"), ("bsp_nodes", "MOBN"), ("liquid", "MLIQ"), ("doodad_refs", "MODR")] {
             let empty = if item == "liquid" { "none" } else if item == "batches" { "" } else { "[]" };
             let pred = if item == "liquid" { lpred } else { "-" };
+            if item == "liquid" && vi >= WOD && s.liquid.is_some() {
+                // the walker's MLIQ layout is the format's (MVER 17); from Wod on the crate writes its own 16-byte vertices under
+                // its own MVER numbers, for which there is no independent description: framing (above) and presence (parse_wmo) only
+                c.count("liquid_layout_from_wod_on_observed_not_judged|walker", 1);
+                continue;
+            }
             if item == "doodad_refs" {
                 // not among the lists the statement names: observed and tallied, never a violation
                 let g = got.get(item).map(|x| x.as_str()).unwrap_or(empty);
@@ -1917,6 +2404,8 @@ fn check_group_case(c: &mut Case, s: &GroupSpec) {
                 Ok(Ok(ParsedWmo::Root(_))) => agg.check("group-roundtrip|parse_wmo", "file-type", "-", vi, false, || (format!("parse_wmo classified the written group as a root file ({vname})"), json!({}))),
                 Ok(Ok(ParsedWmo::Group(g))) => {
                     c.count("groups_parsed|parse_wmo", 1);
+                    agg.cmp(c, "group-roundtrip|parse_wmo", "mver", "-", vi, &ver.to_raw().to_string(), &g.version.to_string());
+                    alt_readers_group(c, &mut agg, vi, &b1, &g);
                     if hlen == 68 {
                         let got = proj_group_api(&g);
                         for (item, gv) in &got {
@@ -1968,11 +2457,11 @@ fn check_group_case(c: &mut Case, s: &GroupSpec) {
 
     // ---- (d) conversions over all version pairs
     let conv = WmoConverter::new();
-    for from in 0..VERS.len() {
-        for to in 0..VERS.len() {
+    {
+        for (from, to) in conversion_pairs(c.idx) {
             let pair = format!("{}->{}", VERS[from].1, VERS[to].1);
             let mut obj = build_group(s, valid_group_flags(s.flags, from));
-            let exp = build_group(s, valid_group_flags(s.flags, from.min(to)));
+            let mut exp = build_group(s, valid_group_flags(s.flags, from.min(to)));
             match lib(|| conv.convert_group(&mut obj, VERS[to].0, VERS[from].0)) {
                 Err(p) => {
                     c.violate(format!("convert-panic|group|{}|{pair}", p.sig()), format!("convert_group panicked: {}", p.msg), json!({}));
@@ -1986,6 +2475,15 @@ fn check_group_case(c: &mut Case, s: &GroupSpec) {
                 Ok(Ok(())) => {}
             }
             c.count("group_conversions", 1);
+            // bit 0x2 of the liquid flag word is the crate's marker for its Wod+ liquid layout, not content that both versions
+            // represent: across that boundary the bit is left to the converter (taken over into the expectation), every other
+            // bit of the word must stay
+            if (from < WOD) != (to < WOD) {
+                if let (Some(lo), Some(le)) = (obj.liquid.as_ref(), exp.liquid.as_mut()) {
+                    le.flags = (le.flags & !0x2) | (lo.flags & 0x2);
+                    c.count("group_conversions_across_the_liquid_layout_boundary", 1);
+                }
+            }
             let (mut got, mut want) = (proj_group(&obj), proj_group(&exp));
             got.extend(proj_group_extra(&obj));
             want.extend(proj_group_extra(&exp));
@@ -2010,14 +2508,7 @@ fn check_group_case(c: &mut Case, s: &GroupSpec) {
             }
             // the same conversion through the editor session (load root + group, convert_to_version, save_group): what it saves is
             // the group converted and written for the version the session now has
-            // (targets: the five versions of the round-trip legs, and — from the newest of them — the later file versions, whose group
-            // layout differs; there the two library paths are compared with each other only)
-            let mut targets: Vec<(WmoVersion, String)> = vec![(VERS[to].0, pair.clone())];
-            if to == MOP {
-                for (tv, tn) in [(WmoVersion::Wod, "Wod"), (WmoVersion::Legion, "Legion"), (WmoVersion::WarWithin, "WarWithin")] {
-                    targets.push((tv, format!("{}->{tn}", VERS[from].1)));
-                }
-            }
+            let targets: Vec<(WmoVersion, String)> = vec![(VERS[to].0, pair.clone())];
             for (tver, pair) in targets {
             let a: Result<Result<Vec<u8>, String>, PanicInfo> = if tver == VERS[to].0 { match &direct { Ok(Ok(x)) => Ok(Ok(x.clone())), _ => Ok(Err("direct conversion not available".into())) } } else { Ok(Ok(Vec::new())) };
             if let (Ok(Ok(a)), Ok(mut root)) = (&a, WmoParser::new().parse_root(&mut Cursor::new(seed_root()))) {
@@ -2067,11 +2558,12 @@ fn check_group_case(c: &mut Case, s: &GroupSpec) {
 fn main() {
     let mut run = Run::new();
     let thorough = run.args.thorough();
+    THOROUGH.store(thorough, std::sync::atomic::Ordering::Relaxed);
     let (n_root, n_group, many_max): (u64, u64, u64) = if thorough { (250_000, 250_000, 40) } else { (9_000, 9_000, 9) };
     let seed = seed_root();
     let (mut root_samples, mut group_samples) = (0, 0);
     run.extra("versions", json!(VERS.iter().map(|v| v.1).collect::<Vec<_>>()));
-    run.extra("conversion_pairs_per_object", json!(VERS.len() * VERS.len()));
+    run.extra("conversion_pairs_per_object", json!(conversion_pairs(0).len()));
     // Boundary-size cases behind the regular index space: one list at a time is given a length at / just beyond / well beyond 4096
     // elements (the length up to which the parsers pre-allocate; real city-sized objects have several thousand definitions, vertices, ...),
     // the other lists stay random empty / one / many. (kind, list number, length); the liquid grid (group list 7) is not a flat list.
